@@ -39,6 +39,10 @@ checks = {
    text="bounded-exhaustive enumeration of all encoder inputs (<=5/6 runes over 15 runes) and decoder inputs (<=5/7 bytes over 16 symbols + UTF-16 unit families) against an independent RFC 3501 codec, and of every (src chunk, dst size) driving of the streaming transformer",
    note="alphabets chosen per branch of the codec; RFC-silent inputs only safety-checked",
    technique="bounded-exhaustive enumeration of inputs and of environment answers (buffer chunkings) on the real code vs reference codec"),
+ "C17": dict(level=EX, design="DESIGN.md §4 C17",
+   text="server: {TLSConfig nil,set} x {InsecureAuth} x 9 plaintext suffixes after 'a STARTTLS' delivered in EVERY segmentation into <=3/4 (5) network writes (one segment per server Read, which fixes what the bufio.Reader holds at the switch), followed by nothing or a genuine TLS handshake + LOGIN inside TLS; oracle: after the OK line only TLS records are ever written, no backend call stems from the suffix, handshake fails unless the suffix is empty, credentials policy table (540 cases); client: NewStartTLS against a scripted peer x greeting x completion line x injected responses x every segmentation x {plaintext, close, junk record, genuine TLS server}: no capability, update or completion from post-boundary plaintext, PREAUTH refused, plaintext-era capabilities do not survive",
+   note="real crypto/tls over the in-memory network; free-running (outcomes are fixed by segment boundaries); watchdog = engine error",
+   technique="bounded-exhaustive enumeration of inputs and of environment answers (all segmentations of the byte stream) on the real code"),
  "C18": dict(level=MC, design="DESIGN.md §4 C18",
    text="legality: 6 capability configurations x enablement x 13 commands x a 21-string alphabet in every string position (+ all pairs) and APPEND sizes around 4096, bytes written by the real client judged by an independent scanner ({n+} only when advertised, no CR/LF/NUL in quotes, 8-bit in quotes only with IMAP4rev2 or enabled UTF8=ACCEPT, literal sizes match); synchronisation: 16 scenarios with synchronising literals granted or refused by the server, every schedule of server vs client threads within delay bound 2 (3) / preemption bound 1 (2), write hooks on the connection flag any byte written while a continuation is awaited and any refused payload",
    note="scripted peer; legality judged against advertised/enabled capabilities; CHARSET not judged",
